@@ -175,6 +175,7 @@ func (f *Func) redefineInputs(opts ...Arg) (reflect.Type, error) {
 		Type:      structMarkerType,
 		Anonymous: true,
 	})
+	names := map[string]struct{}{}
 	for k, v := range state.InputSet {
 		log.Trace("input", "value", v)
 		if _, ok := inputsProvided[k]; ok {
@@ -183,6 +184,14 @@ func (f *Func) redefineInputs(opts ...Arg) (reflect.Type, error) {
 
 		switch v := v.(type) {
 		case *valueVertex:
+			// Two required values can share a name (with different types or
+			// subtypes) but a struct cannot have two fields of one name.
+			if _, ok := names[v.Name]; ok {
+				return nil, fmt.Errorf(
+					"cannot redefine: more than one required input is named %q", v.Name)
+			}
+			names[v.Name] = struct{}{}
+
 			sf = append(sf, reflect.StructField{
 				Name: strings.ToUpper(v.Name),
 				Type: v.Type,
